@@ -24,7 +24,8 @@ TRIPS = [0, 1, 2, 3, 5]
 # ------------------------------------------------------------------------------------ strategies
 
 def _vref():
-    return st.integers(0, 23)
+    # negative references address the most recently defined values (induction variables, carried values, pure results)
+    return st.integers(-5, 23)
 
 
 @st.composite
@@ -33,7 +34,7 @@ def _unit(draw, accs, reuse_bias=True):
     nf = len(accs[a][1])
     if reuse_bias and draw(st.booleans()):
         # small pool: repeated values across units are what dedup feeds on
-        pool = [draw(st.integers(0, 5)) for _ in range(2)]
+        pool = [draw(st.integers(-3, 5)) for _ in range(2)]
         vals = [draw(st.sampled_from(pool)) for _ in range(nf)]
     else:
         vals = [draw(_vref()) for _ in range(nf)]
